@@ -30,6 +30,9 @@ import (
 //	orreach u <dir> <set>  -> [..]         set = a,b,c | -
 //	xorreach u <dir> <set> -> [..]
 //	stats                  -> size= hits= misses= cap=   (combined inbound+outbound cache statistics)
+//	mutate                 -> ok   caller-side probe: every bitmap the implementation has handed out so far (ReachOf… results)
+//	                               and every accumulator passed to OrReach/XorReach is cleared and refilled with junk; the
+//	                               answers that follow must not change (results are fresh values, nothing is retained)
 //
 // dir = in | out | both.
 
@@ -40,8 +43,9 @@ func init() { register("c15", c15Suite{}) }
 // ---------------------------------------------------------------- generator
 
 type c15Graph struct {
-	toks []string
-	ids  []uint64
+	toks  []string
+	ids   []uint64 // sorted
+	order []uint64 // generator's index order (for the DAG families: a topological order)
 }
 
 func c15ID(style int, i int) uint64 {
@@ -187,6 +191,11 @@ func c15GenGraph(rng *Rng, maxN int, stats *Stats) c15Graph {
 		g.ids = append(g.ids, v)
 	}
 	sort.Slice(g.ids, func(i, j int) bool { return g.ids[i] < g.ids[j] })
+	for i := 0; i < n; i++ {
+		if seen[id(i)] {
+			g.order = append(g.order, id(i))
+		}
+	}
 	return g
 }
 
@@ -209,7 +218,7 @@ func c15Set(rng *Rng, ids []uint64) string {
 }
 
 // c15Script draws 6..12 mixed queries; one direction is favoured so that cache entries written by one
-// query are read by a later one.
+// query are read by a later one. `mutate` probes are sprinkled in (they do not count as queries).
 func c15Script(rng *Rng, ids []uint64, stats *Stats) []string {
 	length := 6 + rng.Intn(7)
 	fav := c15Dirs[rng.Intn(2)]
@@ -222,7 +231,7 @@ func c15Script(rng *Rng, ids []uint64, stats *Stats) []string {
 				return "out"
 			}
 			return "in"
-		case x < 16:
+		case x < 17:
 			return "both"
 		default:
 			return c15Dirs[rng.Intn(2)]
@@ -250,7 +259,60 @@ func c15Script(rng *Rng, ids []uint64, stats *Stats) []string {
 		default:
 			ops = append(ops, "stats")
 		}
+		if rng.Chance(1, 5) {
+			ops = append(ops, "mutate")
+		}
 	}
+	return ops
+}
+
+// c15SweepScript asks the DFS-backed entry points for EVERY node in one direction, in insertion order or its
+// reverse (for the DAG families that is ancestors-before-descendants or the opposite), then re-asks a few of them:
+// a reach set cached while answering an ancestor is read back by the query for the descendant. This is the history
+// shape behind F5 and its relatives (a cursor cut by the shared visited set that is cached anyway).
+func c15SweepScript(rng *Rng, order []uint64, ids []uint64, stats *Stats) []string {
+	d := c15Dirs[rng.Intn(2)]
+	seq := append([]uint64(nil), order...)
+	if rng.Bool() {
+		for i, j := 0, len(seq)-1; i < j; i, j = i+1, j-1 {
+			seq[i], seq[j] = seq[j], seq[i]
+		}
+	}
+	if len(seq) > 10 {
+		seq = seq[:10]
+	}
+	ask := func(v uint64) string {
+		switch x := rng.Intn(10); {
+		case x < 6:
+			return fmt.Sprintf("reach %d %s", v, d)
+		case x < 7:
+			return fmt.Sprintf("reachslice %d %s", v, d)
+		case x < 9:
+			return fmt.Sprintf("orreach %d %s %s", v, d, c15Set(rng, ids))
+		default:
+			return fmt.Sprintf("xorreach %d %s %s", v, d, c15Set(rng, ids))
+		}
+	}
+	var ops []string
+	for _, v := range seq {
+		ops = append(ops, ask(v))
+		if rng.Chance(1, 6) {
+			ops = append(ops, "mutate")
+		}
+	}
+	extra := 2 + rng.Intn(3)
+	for len(seq) < 6 && extra < 6-len(seq) {
+		extra++
+	}
+	for i := 0; i < extra; i++ {
+		v := ids[rng.Intn(len(ids))]
+		if rng.Chance(1, 4) {
+			ops = append(ops, fmt.Sprintf("canreach %d %d %s", v, ids[rng.Intn(len(ids))], d))
+		} else {
+			ops = append(ops, ask(v))
+		}
+	}
+	stats.Inc("gen.script.sweep")
 	return ops
 }
 
@@ -277,8 +339,83 @@ func (c15Suite) Gen(rng *Rng, tier string, w *bufio.Writer, stats *Stats) {
 		if rng.Chance(1, 40) {
 			capacity = Pick(rng, []int{0, -2})
 		}
-		emit("random", capacity, g, c15Script(rng, g.ids, stats))
+		if rng.Chance(1, 3) {
+			emit("random-sweep", capacity, g, c15SweepScript(rng, g.order, g.ids, stats))
+		} else {
+			emit("random", capacity, g, c15Script(rng, g.ids, stats))
+		}
 		stats.Inc("random_cases")
+	}
+	// every DAG on 5 nodes (edges u -> v for u < v in a per-graph random labelling), swept in one direction: the
+	// smallest scope that contains "a cut cursor that still receives an exact child" (5 components)
+	dagCaps := []int{2, 8}
+	if tier == "thorough" {
+		dagCaps = caps
+	}
+	for mask := 0; mask < (1 << 10); mask++ {
+		label := []int{0, 1, 2, 3, 4}
+		for i := 4; i > 0; i-- {
+			j := rng.Intn(i + 1)
+			label[i], label[j] = label[j], label[i]
+		}
+		g := c15Graph{}
+		for i := 0; i < 5; i++ {
+			g.ids = append(g.ids, uint64(i))
+			g.order = append(g.order, uint64(label[i]))
+		}
+		if mask%2 == 0 { // explicit nodes in id order, else insertion order = first appearance in the edge list
+			for i := 0; i < 5; i++ {
+				g.toks = append(g.toks, strconv.Itoa(i))
+			}
+		}
+		b := 0
+		var etoks []string
+		for u := 0; u < 5; u++ {
+			for v := u + 1; v < 5; v++ {
+				if mask&(1<<b) != 0 {
+					etoks = append(etoks, fmt.Sprintf("%d>%d", label[u], label[v]))
+				}
+				b++
+			}
+		}
+		for i := len(etoks) - 1; i > 0; i-- {
+			j := rng.Intn(i + 1)
+			etoks[i], etoks[j] = etoks[j], etoks[i]
+		}
+		g.toks = append(g.toks, etoks...)
+		if len(g.toks) == 0 {
+			g.toks = []string{"0"}
+		}
+		// nodes that never appear are not part of the graph
+		present := map[uint64]bool{}
+		if mask%2 == 0 {
+			for i := 0; i < 5; i++ {
+				present[uint64(i)] = true
+			}
+		}
+		for _, t := range g.toks {
+			for _, part := range strings.Split(t, ">") {
+				v, _ := strconv.ParseUint(part, 10, 64)
+				present[v] = true
+			}
+		}
+		var ids, order []uint64
+		for _, v := range g.ids {
+			if present[v] {
+				ids = append(ids, v)
+			}
+		}
+		for _, v := range g.order {
+			if present[v] {
+				order = append(order, v)
+			}
+		}
+		g.ids, g.order = ids, order
+		for _, capacity := range dagCaps {
+			emit("dag5", capacity, g, c15SweepScript(rng, g.order, g.ids, stats))
+			stats.Inc("exhaustive_cases")
+		}
+		stats.Inc("exhaustive_dags_n5")
 	}
 	// exhaustive small scope: every digraph (self loops included) on <= maxE nodes, node ids 0..n-1 added
 	// explicitly in order; capacities: all of {1,2,3,8} up to 3 nodes, rotating pair for 4 nodes.
@@ -303,8 +440,13 @@ func (c15Suite) Gen(rng *Rng, tier string, w *bufio.Writer, stats *Stats) {
 			if nn == 4 {
 				cs = []int{caps[mask%2], caps[2+(mask/2)%2]}
 			}
-			for _, capacity := range cs {
-				emit(fmt.Sprintf("all%d", nn), capacity, g, c15Script(rng, g.ids, stats))
+			g.order = g.ids
+			for ci, capacity := range cs {
+				if (mask+ci)%3 == 0 {
+					emit(fmt.Sprintf("all%d-sweep", nn), capacity, g, c15SweepScript(rng, g.order, g.ids, stats))
+				} else {
+					emit(fmt.Sprintf("all%d", nn), capacity, g, c15Script(rng, g.ids, stats))
+				}
 				stats.Inc("exhaustive_cases")
 			}
 			stats.Inc(fmt.Sprintf("exhaustive_graphs_n%d", nn))
@@ -320,12 +462,24 @@ type c15Runner struct {
 	rc      *algo.ReachabilityCache
 	shadow  *c15Shadow
 	n       int
+	handed  []cardinality.Duplex[uint64] // every bitmap handed out by / passed to the implementation since the last mutate
 }
 
 func (c15Suite) NewRunner(stats *Stats) Runner {
 	// algo logs two slog lines per SCC run; silence them (they would dominate the captured output)
 	slog.SetDefault(slog.New(slog.NewTextHandler(io.Discard, nil)))
 	return &c15Runner{stats: stats}
+}
+
+func (r *c15Runner) countDir(d graph.Direction) {
+	switch d {
+	case graph.DirectionInbound:
+		r.stats.Inc("dir.in")
+	case graph.DirectionOutbound:
+		r.stats.Inc("dir.out")
+	default:
+		r.stats.Inc("dir.both")
+	}
 }
 
 func c15Dir(s string) (graph.Direction, bool) {
@@ -394,6 +548,15 @@ func (r *c15Runner) Step(t []string, raw string) string {
 		r.n = int(r.digraph.NumNodes())
 		r.rc = algo.NewReachabilityCache(ctx, r.digraph, capacity)
 		r.shadow = newC15Shadow(ctx, r.digraph, capacity, r.stats)
+		r.handed = nil
+		switch {
+		case capacity <= 0:
+			r.stats.Inc("branch.capacity.clamped")
+		case capacity < r.shadow.k:
+			r.stats.Inc("branch.capacity.below_components")
+		default:
+			r.stats.Inc("branch.capacity.holds_all")
+		}
 		return fmt.Sprintf("ok n=%d k=%d", r.n, r.shadow.k)
 	case len(t) == 2 && t[0] == "mode":
 		if t[1] != "current" && t[1] != "fixed" {
@@ -439,6 +602,7 @@ func (r *c15Runner) Step(t []string, raw string) string {
 			return "bad-op"
 		}
 		r.stats.Inc("op.canreach")
+		r.countDir(d)
 		if r.rc.CanReach(u, v, d) {
 			r.stats.Inc("branch.canreach.true")
 			return "1"
@@ -452,8 +616,11 @@ func (r *c15Runner) Step(t []string, raw string) string {
 			return "bad-op"
 		}
 		r.stats.Inc("op.reach")
+		r.countDir(d)
 		r.shadow.query(u, d)
-		return c15List(r.rc.ReachOfComponentContainingMember(u, d).Slice())
+		res := r.rc.ReachOfComponentContainingMember(u, d)
+		r.handed = append(r.handed, res)
+		return c15List(res.Slice())
 	case len(t) == 3 && t[0] == "reachslice":
 		u, e1 := strconv.ParseUint(t[1], 10, 64)
 		d, ok := c15Dir(t[2])
@@ -461,6 +628,7 @@ func (r *c15Runner) Step(t []string, raw string) string {
 			return "bad-op"
 		}
 		r.stats.Inc("op.reachslice")
+		r.countDir(d)
 		r.shadow.query(u, d)
 		sl := r.rc.ReachSliceOfComponentContainingMember(u, d)
 		if sl == nil {
@@ -479,13 +647,31 @@ func (r *c15Runner) Step(t []string, raw string) string {
 			return "bad-op"
 		}
 		r.stats.Inc("op." + t[0])
+		r.countDir(d)
 		r.shadow.query(u, d)
 		if t[0] == "orreach" {
 			r.rc.OrReach(u, d, set)
 		} else {
 			r.rc.XorReach(u, d, set)
 		}
+		r.handed = append(r.handed, set)
 		return c15List(set.Slice())
+	case len(t) == 1 && t[0] == "mutate":
+		// the caller edits every value it owns: results of ReachOf… and the accumulators of Or/XorReach
+		for _, h := range r.handed {
+			members := h.Slice()
+			h.Clear()
+			h.Add(424242, 7)
+			for i, m := range members {
+				if i%2 == 1 {
+					h.Add(m + 1)
+				}
+			}
+			r.stats.Inc("branch.mutate.bitmap_edited")
+		}
+		r.stats.Inc("op.mutate")
+		r.handed = r.handed[:0]
+		return "ok"
 	case len(t) == 1 && t[0] == "stats":
 		s := r.rc.Stats()
 		return fmt.Sprintf("size=%d hits=%d misses=%d cap=%d", s.Size(), s.Hits(), s.Misses(), s.Capacity)
@@ -504,16 +690,21 @@ type c15Shadow struct {
 	k     int
 	in    cache.Cache[uint64, cardinality.Duplex[uint64]]
 	out   cache.Cache[uint64, cardinality.Duplex[uint64]]
+	// per direction (0 in, 1 out): components completed as cut (inexact, hence uncached) cursors, components ever cached
+	cutDone    [2]map[uint64]bool
+	cachedOnce [2]map[uint64]bool
 }
 
 func newC15Shadow(ctx context.Context, g container.DirectedGraph, capacity int, stats *Stats) *c15Shadow {
 	cg := algo.NewComponentGraph(ctx, g)
 	return &c15Shadow{
-		stats: stats,
-		cg:    cg,
-		k:     int(cg.Digraph().NumNodes()),
-		in:    cache.NewSieve[uint64, cardinality.Duplex[uint64]](capacity),
-		out:   cache.NewSieve[uint64, cardinality.Duplex[uint64]](capacity),
+		stats:      stats,
+		cg:         cg,
+		k:          int(cg.Digraph().NumNodes()),
+		in:         cache.NewSieve[uint64, cardinality.Duplex[uint64]](capacity),
+		out:        cache.NewSieve[uint64, cardinality.Duplex[uint64]](capacity),
+		cutDone:    [2]map[uint64]bool{{}, {}},
+		cachedOnce: [2]map[uint64]bool{{}, {}},
 	}
 }
 
@@ -523,7 +714,7 @@ type c15Cursor struct {
 	idx      int
 	reach    cardinality.Duplex[uint64]
 	ancestor *c15Cursor
-	skipped  bool
+	skipped  bool // cut by the shared visited set (directly or through a child): inexact
 }
 
 func (s *c15Shadow) cacheFor(d graph.Direction) cache.Cache[uint64, cardinality.Duplex[uint64]] {
@@ -536,6 +727,7 @@ func (s *c15Shadow) cacheFor(d graph.Direction) cache.Cache[uint64, cardinality.
 	return nil
 }
 
+// query replays componentReachDFS (as repaired: cut cursors are not cached) and counts the paths taken.
 func (s *c15Shadow) query(member uint64, d graph.Direction) {
 	root, ok := s.cg.ContainingComponent(member)
 	if !ok {
@@ -543,29 +735,46 @@ func (s *c15Shadow) query(member uint64, d graph.Direction) {
 		return
 	}
 	c := s.cacheFor(d)
+	di := 0
+	if d == graph.DirectionOutbound {
+		di = 1
+	}
 	get := func(k uint64) (cardinality.Duplex[uint64], bool) {
 		if c == nil {
 			return nil, false
 		}
 		return c.Get(k)
 	}
-	put := func(cur *c15Cursor) {
+	put := func(cur *c15Cursor, isRoot bool) {
 		if c == nil {
+			return
+		}
+		if cur.skipped && !isRoot {
+			s.stats.Inc("branch.reach.cut_cursor_completed")
+			s.cutDone[di][cur.comp] = true
 			return
 		}
 		if c.Stats().Size() >= int64(c.Stats().Capacity) {
 			s.stats.Inc("branch.reach.eviction")
 		}
-		if cur.skipped {
-			s.stats.Inc("branch.reach.cut_cursor_completed")
-		}
+		s.cachedOnce[di][cur.comp] = true
 		c.Put(cur.comp, cur.reach)
 	}
 	if _, hit := get(root); hit {
 		s.stats.Inc("branch.reach.root_cache_hit")
+		if s.cutDone[di][root] {
+			s.stats.Inc("branch.reach.cut_component_hit_after_requery")
+		}
 		return
 	}
 	s.stats.Inc("branch.reach.dfs")
+	if c != nil && s.cutDone[di][root] {
+		// the history shape of F5 and its relatives: a component that an earlier DFS completed as a cut cursor is now asked for
+		s.stats.Inc("branch.reach.cut_component_requeried")
+	}
+	if c != nil && s.cachedOnce[di][root] {
+		s.stats.Inc("branch.reach.evicted_component_requeried")
+	}
 	rootCur := &c15Cursor{comp: root, adj: container.AdjacentNodes(s.cg.Digraph(), root, d), reach: cardinality.NewBitmap64With(root)}
 	stack := []*c15Cursor{rootCur}
 	for len(stack) > 0 {
@@ -574,15 +783,12 @@ func (s *c15Shadow) query(member uint64, d graph.Direction) {
 			stack = stack[:len(stack)-1]
 			if cur.ancestor != nil {
 				cur.ancestor.reach.Or(cur.reach)
+				if !cur.skipped && cur.ancestor.skipped && cur.ancestor != rootCur {
+					// an exact child rolls up into an already cut non-root cursor (the flag must stay cleared)
+					s.stats.Inc("branch.reach.exact_child_into_cut_cursor")
+				}
 			}
-			if cur != rootCur {
-				put(cur)
-			} else {
-				skipped := cur.skipped
-				cur.skipped = false // the root's reach is the visited set itself: always complete
-				put(cur)
-				cur.skipped = skipped
-			}
+			put(cur, cur == rootCur)
 			continue
 		}
 		next := cur.adj[cur.idx]
@@ -590,6 +796,9 @@ func (s *c15Shadow) query(member uint64, d graph.Direction) {
 		if rootCur.reach.CheckedAdd(next) {
 			if cached, hit := get(next); hit {
 				s.stats.Inc("branch.reach.neighbour_cache_hit")
+				if cur.skipped && cur != rootCur {
+					s.stats.Inc("branch.reach.cache_hit_in_cut_cursor")
+				}
 				cur.reach.Or(cached)
 			} else {
 				adj := container.AdjacentNodes(s.cg.Digraph(), next, d)
